@@ -1,8 +1,18 @@
 package props
 
 import (
+	"context"
 	"fmt"
+	"io"
+	"os"
 	"strings"
+	"sync"
+
+	"github.com/RoaringBitmap/roaring/roaring64"
+	"github.com/streamingfast/dstore"
+	"github.com/streamingfast/substreams/block"
+	"github.com/streamingfast/substreams/storage/index"
+	"go.uber.org/zap"
 
 	pbindex "github.com/streamingfast/substreams/pb/sf/substreams/index/v1"
 	"google.golang.org/protobuf/proto"
@@ -167,7 +177,30 @@ func runC15e2e(c *fw.Case) {
 			}
 		}
 		// index files: delete all / a subset / none
-		switch c.R.Intn(3) {
+		switch c.R.Intn(4) {
+		case 3: // only ONE index module loses its files: the others' pre-computed bitmaps stay in use
+			var hashes []string
+			seen := map[string]bool{}
+			for _, f := range s.cl.ListCache() {
+				if f.Sub == "index" && !seen[f.Hash] {
+					seen[f.Hash] = true
+					hashes = append(hashes, f.Hash)
+				}
+			}
+			if len(hashes) > 0 {
+				victim := hashes[c.R.Intn(len(hashes))]
+				n := 0
+				for _, f := range s.cl.ListCache() {
+					if f.Sub == "index" && f.Hash == victim {
+						removeCacheFile(s, f.Rel)
+						n++
+					}
+				}
+				step["deleted_index_files_of_one_module"] = n
+				if len(hashes) > 1 {
+					c.Count("e2e_one_of_several_index_modules_lost_its_files", 1)
+				}
+			}
 		case 0:
 			n := 0
 			for _, f := range s.cl.ListCache() {
@@ -216,12 +249,16 @@ func removeCacheFile(s *scen, rel string) {
 // newScenFiltered generates packages until one has a filtered module (bounded attempts).
 func newScenFiltered(c *fw.Case) *scen {
 	var s *scen
-	for attempt := 0; attempt < 30; attempt++ {
-		s = newScen(c, gen.PkgOpts{MaxMods: 8, MinMods: 4, FilterProb: 0.6, IndexProb: 0.3})
+	for attempt := 0; attempt < 40; attempt++ {
+		s = newScen(c, gen.PkgOpts{MaxMods: 9, MinMods: 5, FilterProb: 0.6, IndexProb: 0.3})
+		idx := map[string]bool{}
 		for _, m := range s.pkg.Modules.Modules {
 			if m.BlockFilter != nil {
-				return s
+				idx[m.BlockFilter.Module] = true
 			}
+		}
+		if len(idx) >= 2 || (len(idx) == 1 && (c.Index%2 == 1 || attempt > 20)) {
+			return s
 		}
 		s.close()
 	}
@@ -232,19 +269,23 @@ func init() {
 	fw.Register(&fw.Spec{
 		ID:    "C15",
 		Level: "exploration",
-		Rule:  "two case families. (A) evaluator agreement: " + c15a.Rule + " (B) " + c15e2eRule,
+		Rule:  "three case families. (A) evaluator agreement: " + c15a.Rule + " (B) " + c15e2eRule + " (C) an index file saved through a store whose first upload attempt fails (the code retries) must load back with the same bitmaps.",
 		Assumptions: append(append([]string{}, c15a.Assumptions...),
 			"end-to-end family: payload expectations come from REF-LINEAR; the reference's own skip decisions are judged by a hand-written evaluation of each generated filter query",
 			"a filtered module whose inputs are all absent is skipped by the engine regardless of the filter (only modules reading the block source are required to run on every matching block)"),
-		Cases: func(tier, mode string) int { return c15a.Cases(tier) + c15e2eCases(tier) },
+		Cases: func(tier, mode string) int { return c15a.Cases(tier) + c15e2eCases(tier) + c15FileCases(tier) },
 		CaseTimeout:   180e9,
 		MinNontrivial: c15a.MinNontrivial,
 		Run: func(c *fw.Case) {
-			if n := c15a.Cases(c.Tier); c.Index < n {
+			n := c15a.Cases(c.Tier)
+			switch {
+			case c.Index < n:
 				c15a.Run(c)
-				return
+			case c.Index < n+c15e2eCases(c.Tier):
+				runC15e2e(c)
+			default:
+				runC15IndexFile(c)
 			}
-			runC15e2e(c)
 		},
 		Post: func(m *fw.Merged) {
 			if m.Counts["e2e_requests_with_index_files_present"] == 0 {
@@ -252,4 +293,98 @@ func init() {
 			}
 		},
 	})
+}
+
+// ---- index / cached-output files survive a failed-then-retried upload
+
+type retryStore struct {
+	dstore.Store
+	mu   *sync.Mutex
+	seen map[string]int
+}
+
+func (f *retryStore) WriteObject(ctx context.Context, base string, r io.Reader) error {
+	f.mu.Lock()
+	f.seen[base]++
+	n := f.seen[base]
+	f.mu.Unlock()
+	if n == 1 {
+		io.Copy(io.Discard, r)
+		return fmt.Errorf("injected: connection reset at the end of the upload of %s", base)
+	}
+	return f.Store.WriteObject(ctx, base, r)
+}
+
+func (f *retryStore) SubStore(sub string) (dstore.Store, error) {
+	s, err := f.Store.SubStore(sub)
+	if err != nil {
+		return nil, err
+	}
+	return &retryStore{Store: s, mu: f.mu, seen: f.seen}, nil
+}
+
+func c15FileCases(tier string) int {
+	if tier == "thorough" {
+		return 48
+	}
+	return 8
+}
+
+// runC15IndexFile: an index file whose first upload attempt fails and is retried must load back with
+// the same bitmaps: an empty index would make every filter reject every block of the segment.
+func runC15IndexFile(c *fw.Case) {
+	dir, _ := os.MkdirTemp(os.Getenv("VH_SCRATCH"), "idx-")
+	defer os.RemoveAll(dir)
+	base, err := dstore.NewStore(dir, "zst", "zstd", true)
+	if err != nil {
+		panic(err)
+	}
+	fs := &retryStore{Store: base, mu: &sync.Mutex{}, seen: map[string]int{}}
+	start := uint64(c.R.Intn(1000)) * 10
+	rng := block.NewRange(start, start+10)
+	indices := map[string]*roaring64.Bitmap{}
+	want := map[string][]uint64{}
+	for k := 0; k < 1+c.R.Intn(6); k++ {
+		key := fmt.Sprintf("k%d", k)
+		bm := roaring64.New()
+		for b := start; b < start+10; b++ {
+			if c.R.Intn(2) == 0 {
+				bm.Add(b)
+				want[key] = append(want[key], b)
+			}
+		}
+		indices[key] = bm
+	}
+	f, err := index.NewFile(fs, "hash", "idx", zap.NewNop(), rng)
+	if err != nil {
+		panic(err)
+	}
+	f.Set(indices)
+	ctx := context.Background()
+	if err := f.Save(ctx); err != nil {
+		c.Violation("C15/index-file/write-retry-failed", "saving an index file through a store whose first write attempt fails returned: "+err.Error(), nil)
+		return
+	}
+	g, _ := index.NewFile(fs, "hash", "idx", zap.NewNop(), rng)
+	if err := g.Load(ctx); err != nil {
+		c.Violation("C15/index-file/load-after-write-retry", "load failed: "+err.Error(), nil)
+		return
+	}
+	got := map[string][]uint64{}
+	for k, bm := range g.Indices {
+		if arr := bm.ToArray(); len(arr) > 0 {
+			got[k] = arr
+		}
+	}
+	for k, v := range want {
+		if len(v) == 0 {
+			delete(want, k)
+		}
+	}
+	c.Count("index_files_written_with_a_retry", 1)
+	if fmt.Sprint(got) != fmt.Sprint(want) {
+		c.Violation("C15/index-file/content-lost-after-write-retry", fmt.Sprintf("index file written with one failed attempt loads back %v, expected %v", got, want), nil)
+		return
+	}
+	c.Nontrivial(fmt.Sprintf("indexfile|%d|%v", c.Index, want))
 }
